@@ -151,6 +151,9 @@ func checkLookups(in *Inst, f *model.Forest, tracked []int, others []Hash, res *
 	}
 	if in.M != nil {
 		got := in.M.GetLeafHashPositions(cloneHashes(probes))
+		if err := in.checkHeld(); err != nil {
+			return err
+		}
 		if len(got) != len(probes) {
 			return fmt.Errorf("%s: GetLeafHashPositions returned %d positions for %d hashes", in.Cfg, len(got), len(probes))
 		}
@@ -163,6 +166,7 @@ func checkLookups(in *Inst, f *model.Forest, tracked []int, others []Hash, res *
 				return fmt.Errorf("%s: GetLeafHashPositions[%d] (%s) = %d, want %d (0 = not found) (N=%d)", in.Cfg, i, shortH(probes[i]), got[i], want, v.N)
 			}
 		}
+		in.hold("GetLeafHashPositions", got, nil)
 	}
 	// position look-ups
 	var vr *model.View
